@@ -27,6 +27,7 @@ func init() {
 			"TrueType glyph boxes are the stored glyph headers (the generator stores the true bounds of all points)",
 			"OS/2 average width may use any rounding (within 1 of the exact mean)",
 			"numberOfHMetrics may be any legal compression, not necessarily the shortest",
+			"table level: advances of 0x8000..0xFFFF are unsigned numbers in the file format (uFWORD) and negative ones in the library's data model (hmtx.Info.Widths is []funit.Int16); they must survive the round trip bit for bit, but which 'maximum advance' hhea gets for such a vector is a limit of that data model and is recorded (hmtx:advance>=0x8000:...), not judged. The derived hhea fields are judged for all advances 0..32767, where both readings agree; a smallest right side bearing outside int16 cannot be stored and is not judged",
 		},
 	}, runC12)
 }
